@@ -218,6 +218,25 @@ def judge_route(c, rec):
                 rec.violation(key + "/wrong-value", c, "%s predicted %r, sub-model %r gives %r" % (
                     out.index[i].date(), out["predicted"].iloc[i], w[0], subs[w[0]]["coefficients"]["intercept"]))
                 break
+    # the same model asked again about the same period, with a different day's temperature missing: every remaining day is still
+    # routed by its own date (two frames of equal span and equal row count are not the same calendar)
+    if c["family"] == "daily":
+        for gap in (37, 200):
+            fr = frame.copy()
+            fr.iloc[gap, fr.columns.get_loc("temperature")] = np.nan
+            out2 = m.predict(em.DailyReportingData(fr, is_electricity_data=True))
+            want2 = rc.route(out2.index, list(subs), doc["settings"])
+            fin = np.isfinite(out2["predicted"].values.astype(float))
+            bad = [i for i in np.nonzero(fin)[0] if len(want2[i]) != 1 or out2["model_split"].iloc[i] != want2[i][0]
+                   or out2["predicted"].iloc[i] != subs[want2[i][0]]["coefficients"]["intercept"]]
+            if bad:
+                i = bad[0]
+                rec.violation(key + "/wrong-submodel/second-call-other-gap", c, "%s (%s) predicted by %r (%r), its cell belongs to %r; %d days wrong" % (
+                    out2.index[i].date(), out2.index[i].day_name(), out2["model_split"].iloc[i], out2["predicted"].iloc[i], want2[i], len(bad)))
+                break
+            if int(fin.sum()) != len(fr) - 1:
+                rec.violation(key + "/rows/second-call-other-gap", c, "%d predictions for %d days with a temperature" % (int(fin.sum()), len(fr) - 1))
+                break
     rec.note("dates_checked", len(out))
     rec.case(c, len(c["layout"]) >= 2, ["sub=route", "family=" + c["family"], "ncomp=%d" % len(c["layout"])])
 
